@@ -48,7 +48,7 @@ V8_BASE = ["V8_lower.fn:lemma_*", "V8_lower.fn:FunctionModifier as *", "V8_lower
            "V8_lower.fn:InstrumentationFlag::*", "V8_lower.fn:Instruction::add_instr", "V8_lower.fn:FuncInstrFlag::add_instr", "V8_lower.fn:v_inject_all",
            # which functions the lowering visits at all (rule R23, unit V2)
            "V2_reindex.functions_visited_by_the_lowering.*", "V2_reindex.fn:Module::functions_visited_by_the_lowering"]
-LOWER_GLUE = ["Module::resolve_special_instrumentation: the per-function driver (block stack, which helper runs at which instruction, delete_block / retain_end bookkeeping, resolve_on_end maps) is not under contract, EXCEPT (i) the preparation of entry / exit code before the loop and (ii) WHICH functions the outer loop visits (rule R23, unit V2: every local function of the re-organised container; F30), (iii) ONE ITERATION of the inner loop (rule R19) for twelve cases, each a contract on the same extracted text restricted by its `requires`: inside a removed construct; the opener carrying a block-alternate; the matching `end` of a removed construct; an opener with only a block-entry probe; a block / loop with only a block-exit probe; a single-target branch with only a semantic-after probe; a br_table with only a semantic-after probe (flag created, due at the end of every target and of the default, request consumed); an `end` outside any removed construct with bodies pending in either or both tables (the two flush loops are replaced there by calls of the flush regions, verified on their own against the same text: both tables are flushed at this `end` and their entries taken off) - with function-level entry / exit code possibly pending: at the function's last instruction the wrapper block is closed and the exit code follows, spent there; an `else` outside any removed construct with bodies pending for 'the else or the end' of its `if` (flushed here, taken off, the other table untouched; the closure expression `block_stack.last().and_then(|b| table.remove(b))` that takes the entry off is verified as the match it stands for, rule R29); an `else` that carries a block-alternate (pending bodies of its `if` are still flushed here, then the else-arm is replaced and removed up to the `end`, which stays); a block / loop / if with ANY combination of block-entry, block-exit and semantic-after requests (each placed resp. registered as if it were alone, all consumed); an ordinary (not block-structured) instruction without special request, with function-level code possibly pending: entry code once in front of instruction 0, a copy of the exit code in front of every instruction that leaves the function (the four opener / branch cases are stated for functions without function-level entry / exit code). All other combinations (several special requests on a branch, special requests on `else` / `end` other than a block-alternate on `else`, function-level code together with a special request) are NOT decided; the plan tables are seen through the std HashMap view both where entries are added (save_* helpers, proved) and where they are removed and flushed; the lemmas `registered_is_flushed.*` connect the two (the code emitted for an entry is a function of its plan view; a registered body is emitted after what was already due under the same construct and mode, every other entry keeps its code), but the composition over a whole function body (registration at the opener, flush at the matching end, many iterations apart) is not stated as one theorem",
+LOWER_GLUE = ["Module::resolve_special_instrumentation: the per-function driver (block stack, which helper runs at which instruction, delete_block / retain_end bookkeeping, resolve_on_end maps) is not under contract, EXCEPT (i) the head of an outer iteration (unit V15, region take_function_level_code: exactly the local functions marked as carrying special instrumentation are lowered, their function-level entry / exit code is handed over as injected and the stored lists emptied, the FuncProbe records pulled) and the preparation of entry / exit code before the inner loop and (ii) WHICH functions the outer loop visits (rule R23, unit V2: every local function of the re-organised container; F30), (iii) ONE ITERATION of the inner loop (rule R19) for twelve cases, each a contract on the same extracted text restricted by its `requires`: inside a removed construct; the opener carrying a block-alternate; the matching `end` of a removed construct; an opener with only a block-entry probe; a block / loop with only a block-exit probe; a single-target branch with only a semantic-after probe; a br_table with only a semantic-after probe (flag created, due at the end of every target and of the default, request consumed); an `end` outside any removed construct with bodies pending in either or both tables (the two flush loops are replaced there by calls of the flush regions, verified on their own against the same text: both tables are flushed at this `end` and their entries taken off) - with function-level entry / exit code possibly pending: at the function's last instruction the wrapper block is closed and the exit code follows, spent there; an `else` outside any removed construct with bodies pending for 'the else or the end' of its `if` (flushed here, taken off, the other table untouched; the closure expression `block_stack.last().and_then(|b| table.remove(b))` that takes the entry off is verified as the match it stands for, rule R29); an `else` that carries a block-alternate (pending bodies of its `if` are still flushed here, then the else-arm is replaced and removed up to the `end`, which stays); a block / loop / if with ANY combination of block-entry, block-exit and semantic-after requests (each placed resp. registered as if it were alone, all consumed); an ordinary (not block-structured) instruction without special request, with function-level code possibly pending: entry code once in front of instruction 0, a copy of the exit code in front of every instruction that leaves the function (the four opener / branch cases are stated for functions without function-level entry / exit code). All other combinations (several special requests on a branch, special requests on `else` / `end` other than a block-alternate on `else`, function-level code together with a special request) are NOT decided; the plan tables are seen through the std HashMap view both where entries are added (save_* helpers, proved) and where they are removed and flushed; the lemmas `registered_is_flushed.*` connect the two (the code emitted for an entry is a function of its plan view; a registered body is emitted after what was already due under the same construct and mode, every other entry keeps its code), but the composition over a whole function body (registration at the opener, flush at the matching end, many iterations apart) is not stated as one theorem",
               "the final emission of before / alternate / after lists in encode_internal",
               "'fires once when ...' is an execution-trace property: neither verifier has a WebAssembly semantics; what is proved is WHERE each helper places WHICH code (placement contracts written from the property text)",
               "TRUSTED: Inject::inject_all injects the slice in order (closure capturing &mut self)"]
@@ -307,8 +307,8 @@ PROPS = {
     },
     "C17": {
         "title": "Function entry/exit probes fire once per call on every normal path",
-        "units": ["V8_lower", "V2_reindex"],
-        "obligations": V8_BASE + ["V8_lower.lower_one_instruction.*", "V8_lower.fn:Module::lower_one_instruction", "V8_lower.fn:InstrumentationFlag::has_instr", "V8_lower.resolve_function_entry.*", "V8_lower.fn:resolve_function_entry", "V8_lower.resolve_function_exit.*", "V8_lower.fn:resolve_function_exit",
+        "units": ["V8_lower", "V2_reindex", "V15_probes"],
+        "obligations": V8_BASE + ["V15_probes.take_function_level_code.functions_marked_special_are_lowered_the_others_skipped", "V15_probes.take_function_level_code.entry_and_exit_code_handed_over_as_injected", "V15_probes.take_function_level_code.stored_function_level_code_is_emptied", "V15_probes.fn:Module::take_function_level_code", "V15_probes.fn:Functions::get_kind_mut", "V8_lower.lower_one_instruction.*", "V8_lower.fn:Module::lower_one_instruction", "V8_lower.fn:InstrumentationFlag::has_instr", "V8_lower.resolve_function_entry.*", "V8_lower.fn:resolve_function_entry", "V8_lower.resolve_function_exit.*", "V8_lower.fn:resolve_function_exit",
                                   "V8_lower.exit_wrapper.*", "V8_lower.fn:resolve_function_exit_with_block_wrapper", "V8_lower.prepare_function_exit.*", "V8_lower.fn:Module::prepare_function_exit", "V8_lower.fn:Functions::get_type_id", "V8_lower.fn:Types::results",
                                   "V8_lower.lower_plain_instruction.*", "V8_lower.fn:Module::lower_plain_instruction_with_function_level_code",
                                   "V8_lower.lower_end_with_pending_bodies.*", "V8_lower.fn:Module::lower_end_with_pending_bodies", "V8_lower.flush_*", "V8_lower.fn:Module::flush_*"],
@@ -356,8 +356,8 @@ PROPS = {
     },
     "C22": {
         "title": "Special-mode injections are never silently lost",
-        "units": ["V4_inject", "V4b_iter_inject", "V11_emit", "V8_lower"],
-        "obligations": V11_EMIT + ["V8_lower.prepare_function_exit.*", "V8_lower.fn:Module::prepare_function_exit", "V8_lower.fn:Functions::get_type_id", "V8_lower.fn:Types::results", "V4b_iter_inject.ModuleIterator.*", "V4b_iter_inject.fn:ModuleIterator as *", "V4b_iter_inject.ComponentIterator.*", "V4b_iter_inject.fn:ComponentIterator as *", "V4b_iter_inject.fn:Functions::get_mut"] + ["V4_inject.InstrumentationFlag.add_instr.*", "V4_inject.fn:InstrumentationFlag::add_instr", "V4_inject.is_block_style_op.*", "V4_inject.is_branching_op.*",
+        "units": ["V4_inject", "V4b_iter_inject", "V11_emit", "V8_lower", "V15_probes"],
+        "obligations": V11_EMIT + ["V15_probes.take_function_level_code.functions_marked_special_are_lowered_the_others_skipped", "V15_probes.take_function_level_code.entry_and_exit_code_handed_over_as_injected", "V15_probes.take_function_level_code.stored_function_level_code_is_emptied", "V15_probes.fn:Module::take_function_level_code", "V15_probes.fn:Functions::get_kind_mut", "V8_lower.prepare_function_exit.*", "V8_lower.fn:Module::prepare_function_exit", "V8_lower.fn:Functions::get_type_id", "V8_lower.fn:Types::results", "V4b_iter_inject.ModuleIterator.*", "V4b_iter_inject.fn:ModuleIterator as *", "V4b_iter_inject.ComponentIterator.*", "V4b_iter_inject.fn:ComponentIterator as *", "V4b_iter_inject.fn:Functions::get_mut"] + ["V4_inject.InstrumentationFlag.add_instr.*", "V4_inject.fn:InstrumentationFlag::add_instr", "V4_inject.is_block_style_op.*", "V4_inject.is_branching_op.*",
                         "V4_inject.fn:InstrumentationFlag::is_block_style_op", "V4_inject.fn:InstrumentationFlag::is_branching_op",
                         "V4_inject.FuncInstrFlag.*", "V4_inject.fn:FuncInstrFlag::add_instr", "V4_inject.fn:Instruction::add_instr",
                         "V4_inject.LocalFunction.*", "V4_inject.fn:LocalFunction::add_instr",
@@ -429,7 +429,7 @@ PROPS = {
     },
     "C23": {
         "title": "Side-effect report lists exactly the tagged additions and probes",
-        "units": ["V12_sections", "V7_types", "V11_emit"],
+        "units": ["V12_sections", "V7_types", "V11_emit", "V15_probes"],
         "obligations": ["V12_sections.encode_exports.one_record_per_live_tagged_export", "V12_sections.encode_exports.no_other_records", "V12_sections.fn:Module::encode_exports",
                         "V12_sections.encode_imports.one_record_per_live_tagged_import", "V12_sections.fn:Module::encode_imports",
                         "V12_sections.fn:Export as TagUtils::get_tag", "V12_sections.fn:Import as TagUtils::get_tag",
@@ -444,12 +444,21 @@ PROPS = {
                         # the stored types (and with them their tags) are not touched by later additions: a type gets a record iff it was added with a tag
                         "V7_types.add_type.existing_types_unchanged", "V7_types.add_type.new_type_gets_next_id_and_own_group", "V7_types.fn:ModuleTypes::add_type",
                         # the collection step itself (rule R27): the record is appended to the list of its kind, every other list is as it was
-                        "V12_sections.add_injection.*", "V12_sections.fn:add_injection", "V11_emit.add_injection.*", "V11_emit.fn:add_injection"],
+                        "V12_sections.add_injection.*", "V12_sections.fn:add_injection", "V11_emit.add_injection.*", "V11_emit.fn:add_injection",
+                        # probe records (V15; rule R30 for the record-building closures; V11 for the code section)
+                        "V15_probes.add_inj_at.*", "V15_probes.add_injections.*", "V15_probes.fn:InstrumentationFlag::add_inj_at", "V15_probes.fn:InstrumentationFlag::add_injections",
+                        "V15_probes.add_inj_fn.*", "V15_probes.FuncInstrFlag.add_injections.*", "V15_probes.fn:FuncInstrFlag::add_inj_fn", "V15_probes.fn:FuncInstrFlag::add_injections",
+                        "V15_probes.add_corrected_special_injections.*", "V15_probes.fn:LocalFunction::add_corrected_special_injections",
+                        "V15_probes.add_opcode_injections.*", "V15_probes.fn:LocalFunction::add_opcode_injections", "V15_probes.add_injection.*", "V15_probes.fn:add_injection",
+                        "V15_probes.take_function_level_code.*", "V15_probes.fn:Module::take_function_level_code", "V15_probes.fn:Functions::get_kind_mut",
+                        "V11_emit.update_ids_and_encode.stored_code_is_remapped_in_place", "V11_emit.fn:update_ids_and_encode",
+                        "V11_emit.encode_function_body.stored_probe_lists_are_remapped_as_emitted", "V11_emit.fn:encode_function_body", "V11_emit.fn:lemma_body_records_after",
+                        "V11_emit.encode_code_section.probe_records_of_every_live_local_function_with_code_as_emitted", "V11_emit.encode_code_section.no_other_records", "V11_emit.fn:Module::encode_code_section"],
         "glue": ["ASSUMED: #[derive(Hash, Eq)] of InjectType obeys the HashMap key model; #[derive(Clone)] of Injection, Tag, Types and InitExpr, String::clone, <[u8]>::to_vec and Tag::to_owned yield equal values; DataType::from(ValType) is an uninterpreted dt_of (its exactness: Kani K1); str::to_string is modelled by an uninterpreted str_owned",
-                 "the Type, Import, Export, Memory, Table, Element, Global, Data and Func records are decided (the last three through a view, because they hold Vecs: id / type / tag / initialiser resp. memory / offset / bytes / tag, with the indices inside in the index space of the encoded module). Func records are made when the function section is written, i.e. with the body as stored BEFORE the code section rewrites it (the caller's index space); Local records are never produced by the library; records for probes (add_injections / add_opcode_injections / add_corrected_special_injections: closure-based, over HashMaps) are NOT under contract; that probe bodies use the encoded index space follows only from V11 (every injected operator is remapped in place before the records are built) and is not stated as a clause",
+                 "the Type, Import, Export, Memory, Table, Element, Global, Data, Func and Probe records are decided (Global, Data, Func and Probe records through a view, because they hold Vecs: id / type / tag / initialiser resp. memory / offset / bytes / tag resp. function / position / mode / code / tag, with the indices inside in the index space of the encoded module). Func records are made when the function section is written, i.e. with the body as stored BEFORE the code section rewrites it (the caller's index space); Local records are never produced by the library. Probe records: a record is made for EVERY non-empty probe list, tagged or not (an untagged list gets the empty tag) - the property speaks of probes that carry a tag, for which this gives exactly one record with that tag; after- / replacement code placed on a function's final `end` is never emitted, and its record carries the code as stored, not rewritten (stated in the clause). That the function-level records are pulled exactly once per lowered function and the location records once per live local function is proved for the two regions (take_function_level_code of the lowering driver, encode_code_section); that encode_internal runs the lowering before the code section is glue",
                  "that items of the parsed module carry no tag (so get no record) is a property of parse_internal (it builds every item with tag None): read, not proved"],
         "design_ref": "DESIGN.md §5 C23",
-        "level_text": "Partial (nine of twelve record kinds; Func records: id, name, signature, flat locals, tag, body; Global records: id, type, tag and the initialiser as emitted; data records: bytes, tag and - active ones - memory and offset as emitted, after fix F31): when side effects are pulled, the report gains exactly one Type record per tagged type of the module (carrying that type; V7: adding a type never changes a stored type or its tag), exactly one Export record per live tagged export, one Import record per live tagged import, one Memory record per tagged local memory, one Table record per tagged table and one Element record per tagged element segment - with the item's own name / kind / index resp. module / name / type resp. id / limits and its tag - and no record for untagged or deleted ones; nothing else in the report changes in those three loops. After fix F25.",
+        "level_text": "Partial (eleven of twelve record kinds - Local records are never produced -; Func records: id, name, signature, flat locals, tag, body; Global records: id, type, tag and the initialiser as emitted; data records: bytes, tag and - active ones - memory and offset as emitted, after fix F31): when side effects are pulled, the report gains exactly one Type record per tagged type of the module (carrying that type; V7: adding a type never changes a stored type or its tag), exactly one Export record per live tagged export, one Import record per live tagged import, one Memory record per tagged local memory, one Table record per tagged table and one Element record per tagged element segment - with the item's own name / kind / index resp. module / name / type resp. id / limits and its tag - and no record for untagged or deleted ones; nothing else in the report changes in those three loops. After fix F25.",
     },
 }
 
